@@ -6,6 +6,7 @@ import (
 	"go/types"
 	"sort"
 	"strings"
+	"sync"
 
 	"golang.org/x/tools/go/ssa"
 )
@@ -24,6 +25,8 @@ type FuncResult struct {
 	UsedContracts []string
 	Pool       *TermPool
 	Trusted    bool
+	symMemo    map[*Term]map[string]bool
+	symMu      sync.Mutex
 }
 
 type VerifyOpts struct {
@@ -59,12 +62,16 @@ func (e *Engine) VerifyFunction(key string, opts VerifyOpts) (*FuncResult, error
 		vc.assumeParamShape(st, v, prm.Type())
 	}
 	vc.entry = st.clone()
+	vc.assumeAxioms(st)
 	if ct != nil {
 		pre := vc.contractCtx(st, nil, ct, fn, fn.Signature, nil, args)
 		for _, cl := range ct.Requires {
 			vc.assume(st, pre.bool(pre.eval(cl.Expr), cl.Expr))
 		}
 		for _, cl := range ct.ObjInv {
+			vc.assume(st, pre.bool(pre.eval(cl.Expr), cl.Expr))
+		}
+		for _, cl := range ct.Assumes {
 			vc.assume(st, pre.bool(pre.eval(cl.Expr), cl.Expr))
 		}
 	}
@@ -216,3 +223,11 @@ func (vc *VC) frameObligations(exit *State, ct *Contract, fn *ssa.Function, args
 }
 
 func (vc *VC) allocTypesAny() bool { return len(vc.allocTypes) > 0 }
+
+// assumeAxioms adds the closed axioms of the spec library (trusted; listed in the evidence).
+func (vc *VC) assumeAxioms(st *State) {
+	for _, ax := range vc.E.DB.Axioms {
+		c := &evalCtx{vc: vc, st: st, names: map[string]EV{}, bound: map[string]*Term{}}
+		vc.assumeGlobal(c.bool(c.eval(ax.Expr), ax.Expr))
+	}
+}
